@@ -8,14 +8,25 @@
 (* printed at the end.                                                          *)
 EXTENDS ClvmStepper, Json, IOUtils, TLC, FiniteSets
 Rec == ndJsonDeserialize(IOEnv.TRACE)
-VARIABLES l, bad04, bad06, specerr, drift, cnt
-vars == <<l, bad04, bad06, specerr, drift, cnt>>
+VARIABLES l, bad04, bad06, specerr, drift, explained, badrule, cnt
+vars == <<l, bad04, bad06, specerr, drift, explained, badrule, cnt>>
 
 Class(o) == IF o[1] = "ok" THEN o ELSE <<o[1]>>
 Decided(o) == o[1] \in {"ok", "err"}
 
-Init == l = 1 /\ bad04 = {} /\ bad06 = {} /\ specerr = {} /\ drift = {}
-        /\ cnt = [model_compared |-> 0, c04_antecedent |-> 0, c06_compared |-> 0, oom |-> 0]
+\* ---- rule level: path composition (stage_2 path_optimizer / node_path compose_paths) ----
+\* a pure first/rest chain over a non-zero path atom denotes one path: the steps of the atom followed by one step per
+\* operator, innermost first.  When the optimiser answers such a term with an atom, the atom must denote those steps
+\* (otherwise the tree built along the original steps tells the two apart).
+RECURSIVE IsChain(_), ChainSteps(_)
+IsChain(p) == IF IsAtom(p) THEN ~IsZeroPath(BytesOf(p))
+              ELSE /\ IsAtom(First(p)) /\ BytesOf(First(p)) \in {<<5>>, <<6>>}
+                   /\ IsPair(Rest(p)) /\ Rest(Rest(p)) = Nil /\ IsChain(First(Rest(p)))
+ChainSteps(p) == IF IsAtom(p) THEN PathBits(BytesOf(p))
+                 ELSE ChainSteps(First(Rest(p))) \o <<IF BytesOf(First(p)) = <<5>> THEN 0 ELSE 1>>
+
+Init == l = 1 /\ bad04 = {} /\ bad06 = {} /\ specerr = {} /\ drift = {} /\ explained = {} /\ badrule = {}
+        /\ cnt = [model_compared |-> 0, c04_antecedent |-> 0, c06_compared |-> 0, oom |-> 0, chains |-> 0]
 
 Next ==
   /\ l <= Len(Rec) /\ l' = l + 1
@@ -37,12 +48,18 @@ Next ==
      /\ bad04' = IF cons[1] = "ok" /\ (~hasopt \/ e.opt[3] # cons) THEN bad04 \cup {l} ELSE bad04
      \* model of the stepper against the observed stepper
      /\ drift' = IF Decided(ms) /\ Decided(e.step) /\ Class(ms) # Class(e.step) THEN drift \cup {l} ELSE drift
+     \* a C06 disagreement that the stepper machine of the specification (with its documented head-form deviation) predicts exactly
+     /\ explained' = IF Decided(ms) /\ Decided(e.step) /\ Class(ms) = Class(e.step) /\ Decided(cons) /\ Class(e.step) # Class(cons)
+                      THEN explained \cup {l} ELSE explained
+     /\ badrule' = IF hasopt /\ IsPair(e.prog) /\ IsChain(e.prog) /\ IsAtom(e.opt[2]) /\ ~IsZeroPath(BytesOf(e.opt[2]))
+                       /\ PathBits(BytesOf(e.opt[2])) # ChainSteps(e.prog) THEN badrule \cup {l} ELSE badrule
      /\ cnt' = [cnt EXCEPT !.model_compared = @ + (IF Decided(m) /\ Decided(cons) THEN 1 ELSE 0),
                            !.c04_antecedent = @ + (IF cons[1] = "ok" THEN 1 ELSE 0),
                            !.c06_compared = @ + (IF Decided(cons) /\ Decided(e.step) THEN 1 ELSE 0),
-                           !.oom = @ + (IF m[1] = "oom" THEN 1 ELSE 0)]
+                           !.oom = @ + (IF m[1] = "oom" THEN 1 ELSE 0),
+                           !.chains = @ + (IF hasopt /\ IsPair(e.prog) /\ IsChain(e.prog) /\ IsAtom(e.opt[2]) THEN 1 ELSE 0)]
 Spec == Init /\ [][Next]_vars
 Finished == l > Len(Rec) =>
    PrintT(<<"RESULT", ToJson([n |-> Len(Rec), bad04 |-> bad04, bad06 |-> bad06, specerr |-> specerr,
-                               drift |-> drift, cnt |-> cnt])>>)
+                               drift |-> drift, explained |-> explained, badrule |-> badrule, cnt |-> cnt])>>)
 =============================================================================
